@@ -280,8 +280,9 @@ def main(tier):
                 "[tool.pyscn] Z; the same sources everywhere, X/Y/Z/default differ in risk thresholds, exclude_patterns, [cbo]/[lcom] options, "
                 "min_lines / similarity / min_complexity / min_severity filters so that every tool's findings differ between any two of them — "
                 "measured, input_distribution.mcp_history.distinct_findings_per_tool), EVERY answer compared with the command line run for that "
-                "call's path and options alone: per tool the named histories A,B0 / B0,A,B0 / A,C / C,A / B0,A-pkg,B0 / A-pkg,C / D,B0 / A,B1,B0 on "
-                "fresh servers and an Euler circuit through all 36 ordered pairs of targets (self loops included) in overlapping pieces; mixed "
+                "call's path and options alone: per tool the named histories A,B0 / B0,A,B0 / A,C / C,A / B0,A-pkg,B0 / D,B0 on "
+                "fresh servers, an Euler circuit through all 36 ordered pairs of targets (self loops included, then with other options) in "
+                "overlapping pieces, and on one path an Euler circuit through all ordered pairs of option / output-mode variants; mixed "
                 "tools: an Euler circuit through all 49 ordered pairs of tools with the targets on a circuit through all ordered pairs of "
                 "different targets and option/output-mode variants per step, on a server without and on a server with PYSCN_CONFIG (then "
                 "--config on the command line); a failing history is cut at its first wrong answer, shrunk (call alone, one earlier call + the "
